@@ -312,14 +312,9 @@ func PC02(args []string) string {
 		return fmt.Sprintf("FAIL size-changed %x -> %x", len(img), len(r.Out))
 	}
 	if why := ValidImage(r.Out); why != "" {
-		return "FAIL invalid-output " + why + emptiedTag(img, r.Out)
+		return "FAIL invalid-output " + why
 	}
 	return "ok"
-}
-
-// emptiedTag marks the failures that belong to DESIGN section 6 #20 (an edit empties a volume).
-func emptiedTag(in, out []byte) string {
-	return ""
 }
 
 // p_c03 <img> <expect> <touched> <op>...
